@@ -18,11 +18,11 @@ CLAIMS = {
   'A committed halt is defined by the SVM oracle (newest-first rollback, cycle detection = runs forever); BUDGET runs are inconclusive and counted.',
   'deterministic simulation: per-step invariant on the simulated machine under seeded programs, inputs, build options and resource/fault injection'),
  'C04': ('fault_enumeration', '3 C04',
-  'For each array-heavy (or time-travel, or fault-planted) program the stack-size axis is enumerated completely: every size from 0 words to the first completing size N plus two (window enumeration plus seeded sizes when N > 90), each run with freshly poisoned free stack and scratch registers. At every size the memory monitor (live ap/fp, array extents, provenance tags), the scope and control monitors must stay silent; below N the run must end in stack_overflow with an uncorrupted output prefix, from N on it must reproduce the reference history, and different garbage must not change it.',
+  'For each array-heavy (or time-travel, or fault-planted) program the stack-size axis is enumerated completely: every size from 0 words to the first completing size N plus two (window enumeration plus seeded sizes when N > 90), each run with freshly poisoned free stack and scratch registers. At every size the memory monitor (live ap/fp, array extents, provenance tags), the scope and control monitors must stay silent; below N the run must end in stack_overflow with an uncorrupted output prefix, from N on it must reproduce the reference history, and different garbage must not change it. As built also: a seed-independent bad-length matrix (512 programs: element type x word size x 16 negative/minimal/maximal/wrapping lengths x local/callee, each at 14 stack sizes, must end in stack_overflow with silent monitors) and programs computing with uninitialised int/byte/bool elements judged by the monitors under 8 (stack, poison) pairs.',
   'M-mem is sound-by-weakening (unknown provenance falls back to weaker rules); reads of garbage are caught only when they change behaviour across poisons or vs the reference.',
   'deterministic simulation with enumerated resource-exhaustion fault (stack size axis) and poisoned-memory fault; per-access invariant monitor plus differential oracle'),
  'C05': ('fault_enumeration', '3 C05',
-  'The fault axis is enumerated: every fault kind x operator/element type/storage class x boundary index/divisor/length with its nearest harmless neighbours (936 matrix programs whose expected flag is derived independently of the reference model and cross-checked with it), plus the same faults planted at seeded positions inside loops, callees and try bodies of generated programs; exact flag sequence, intact prefix and nothing-after are checked on the committed timeline.',
+  'The fault axis is enumerated: every fault kind x operator/element type/storage class x boundary index/divisor/length with its nearest harmless neighbours (936 matrix programs whose expected flag is derived independently of the reference model and cross-checked with it), plus the same faults planted at seeded positions inside loops, callees and try bodies of generated programs; exact flag sequence, intact prefix and nothing-after are checked on the committed timeline. As built the length part runs every length (incl. values whose byte size wraps to a small number) at every word size {2,3,4,8}; the matrix has 1241 programs.',
   'Flag for bad lengths is stack_overflow as the implementation/upstream tests define; bool lengths within 7 of the largest signed value are not probed (README silent).',
   'deterministic simulation with enumerated program-level fault injection; differential oracle vs reference model'),
  'C08': ('exploration', '3 C08',
@@ -34,19 +34,19 @@ CLAIMS = {
   'Weak fit for the technique (the quantifier is a value grid); the simulator is needed because the result exists only as behaviour of emitted code. SVM/reference assumptions as for C01; floor div/mod assumed.',
   'deterministic simulation of emitted code over an enumerated value grid plus seeded sampling; differential oracle'),
  'C10': ('fault_enumeration', '3 C10',
-  'Text half: seeded fuzzing (random text/bytes, token soups, mutated/truncated/ill-typed variants of generated programs, nesting <= 40) x option vectors through the API (only CompilerError may escape, diagnostics render, spans inside the source) - this half is input fuzzing run through the same harness. I/O half: hidc.__main__.main() in-process on a fake file system; for every invocation the recorded file-system calls are enumerated as fault positions x {EIO, ENOSPC, EACCES, EMFILE} plus missing input, directory as input/output and undecodable bytes; exit status, stderr, traceback absence and output-file presence/content are checked; a sample is cross-checked against a real python -m hidc subprocess.',
+  'Text half: seeded fuzzing (random text/bytes, token soups, mutated/truncated/ill-typed variants of generated programs, nesting <= 40) x option vectors through the API (only CompilerError may escape, diagnostics render, spans inside the source) - this half is input fuzzing run through the same harness. I/O half: hidc.__main__.main() in-process on a fake file system; for every invocation the recorded file-system calls are enumerated as fault positions x {EIO, ENOSPC, EACCES, EMFILE} plus missing input, directory as input/output and undecodable bytes; exit status, stderr, traceback absence and output-file presence/content are checked; a sample is cross-checked against a real python -m hidc subprocess. As built also: a seed-independent single-damage matrix (2547 programs: each alien expression / bad statement alone in each small host position) and long-token / wide inputs (literals of up to 9000 digits, -m14400, -m80000).',
   'Fake raw streams wrapped in the real io classes; UTF-8 locale assumed; successful output must be accepted by the strict SVM assembler (stub of the Sphinx assembler).',
   'deterministic simulation of the CLI on a fake file system with enumerated I/O fault injection; seeded input fuzzing for the totality half'),
  'C13': ('exploration', '3 C13',
-  'Every byte value singly / as character immediate / at first-middle-last position, special-byte pairs (all 65536 pairs in thorough), constant arrays of all lengths 0..40 in four storage classes, seeded random strings and literal spellings; the strict SVM assembler must accept the output and the running program must print, index and measure exactly the denoted bytes.',
+  'Every byte value singly / as character immediate / at first-middle-last position, special-byte pairs (all 65536 pairs in thorough), constant arrays of all lengths 0..40 in four storage classes, seeded random strings and literal spellings; the strict SVM assembler must accept the output and the running program must print, index and measure exactly the denoted bytes. As built every source is also sent through the command-line tool reading it from a (fake) file and must give assembly byte-identical to the API result; literals are also spelled with raw control characters.',
   'Weak fit (value space); the SVM assembler\'s strictness stands in for the real Sphinx assembler.',
   'deterministic simulation of emitted code over an enumerated constant space plus seeded sampling; strict assembler as oracle for well-formedness'),
  'C14': ('exploration', '3 C14',
-  'Seeded constant expressions (depth <= 5, boundary literals, const locals/globals, optional run-time leaves) compiled as written and as a run-time twin with every constant lifted into a variable; both must commit the reference history at word sizes {2,3,4}; compile-time rejections are accepted only when the twin faults at run time. One genuine defect (unbounded folding, F4) is a recorded known finding, recognised by an exact model of it.',
+  'Seeded constant expressions (depth <= 5, boundary literals, const locals/globals, optional run-time leaves) compiled as written and as a run-time twin with every constant lifted into a variable; both must commit the reference history at word sizes {2,3,4}; compile-time rejections are accepted only when the twin faults at run time. One genuine defect (unbounded folding, F4) is a recorded known finding, recognised by an exact model of it. As built also partial-constant twins (a constant next to an operand with an effect) and control-flow twins (a constant as the whole condition of if/while/for).',
   'Weak fit (value/program space). Known finding F4 is matched only when the observed output equals the unbounded-folding model exactly.',
   'deterministic simulation of program pairs (constant form / run-time twin) on the simulated machine; differential oracle vs reference model'),
  'C15': ('exploration', '3 C15',
-  'Checked and --unchecked builds of the same seeded program (all generators, incl. time travel and harmless twins of planted faults) are stepped on the simulated machine with identical word size, stack, argv and poison; whenever the checked run raises no error flag the unchecked run must commit the identical history. The number of guard instructions executed by the checked run is measured, so "the checks ran and were pure observers" is evidence, not assumption.',
+  'Checked and --unchecked builds of the same seeded program (all generators, incl. time travel and harmless twins of planted faults) are stepped on the simulated machine with identical word size, stack, argv and poison; whenever the checked run raises no error flag the unchecked run must commit the identical history. The number of guard instructions executed by the checked run is measured, so "the checks ran and were pure observers" is evidence, not assumption. As built the first 144 cases are a seed-independent preempt matrix (placement x tail x handler kind x follow-up).',
   'Cases whose checked run ends in an error flag are counted, not judged (unchecked behaviour undefined there).',
   'deterministic simulation: paired executions under a build-option seam; history equality'),
  'C18': ('exploration', '3 C18',
